@@ -347,7 +347,7 @@ Proof.
   assert (Hrun : exists st, sfold J0 (fst res) = Some st /\
             (snd res = JNil -> fst res = [] \/ rev st = above lib merged \/
                exists r1 rest1, rest = r1 :: rest1 /\ from_num (bnum r1) (rev st) = rest)).
-  { unfold res, stream_run. cbv zeta. rewrite Hstop, Hfilter, Hmode, Hcur. cbn [N.eqb negb andb].
+  { unfold res, stream_run. cbv zeta. rewrite (file_end_nostop c merged_end Hstop), Hstop, Hfilter, Hmode, Hcur. cbn [N.eqb negb andb].
     unfold live_try. rewrite Hmode, Hcur. cbn [N.eqb].
     assert (Hfuelout : exists st, sfold J0 (fst (@nil event, JFuel)) = Some st /\
               (snd (@nil event, JFuel) = JNil -> fst (@nil event, JFuel) = [] \/ rev st = above lib merged \/
